@@ -20,7 +20,6 @@ else
   (cd $L/repo && git checkout -q --detach "$(git -C /repo rev-parse HEAD)" && git checkout -- . && git clean -fdq -e target)
   mkdir -p $V && rsync -a --delete --exclude 'harness/target' --exclude 'harness/fuzz/target' --exclude 'harness/fuzz/corpus' --exclude 'harness/fuzz/artifacts' --exclude '.git' --exclude 'replays/found' --exclude 'design-probes' /verif/ $V/
   sed -i "s#path = \"/repo\"#path = \"$L/repo\"#" $V/harness/Cargo.toml $V/typecheck/Cargo.toml
-  sed -i "s#/verif/harness/target/typecheck#$V/harness/target/typecheck#" $V/typecheck/.cargo/config.toml $V/check
   (cd $L/repo && git apply "$PATCH") || { echo "patch does not apply"; exit 2; }
   trap '(cd /tmp/mutlab/repo && git checkout -- .)' EXIT
 fi
